@@ -44,6 +44,7 @@ RULE = (
     "pause/defer/suspend requests; resumes. Non-trivial: a monitor took effect and the case holds at least one update "
     "that must be reported and one that must not (paused / suspended / after unmonitor / after the run). Distinct = "
     "canonical JSON."
+    ' Some updates are made from inside a document callback (harness doc_puts), e.g. while the RunStop is being delivered.'
 )
 ASSUMPTIONS = [
     "requests and updates arrive at boundaries between event-loop callbacks (or on the main thread while the loop is quiescent)",
